@@ -128,10 +128,12 @@ func checkElementRepresentation(res *Result, S *Streams, pm *PropModel, rule str
 		}
 		if !okClear {
 			// clear written out: before anything is stored, every field clear() resets is reset
+			// (a field the setter itself stores into afterwards need not be reset first: the last
+			// unconditional assignment decides, and non-zero ones are judged by the next rule)
 			inl := map[*types.Var]bool{}
 			for _, st := range fd.Body.List {
 				as, ok := st.(*ast.AssignStmt)
-				if !ok || len(as.Lhs) != 1 || len(as.Rhs) != 1 || !isZeroExpr(as.Rhs[0]) {
+				if !ok || len(as.Lhs) != 1 || len(as.Rhs) != 1 {
 					break
 				}
 				if fv := thisField(info, as.Lhs[0]); fv != nil {
@@ -445,6 +447,12 @@ func interpretContainerMethod(info *types.Info, fd *ast.FuncDecl, methods map[st
 		return t
 	}
 	d := &dirtyState{from: map[string]bool{}, points: map[string]bool{}}
+	returnsError := false
+	if fd.Type.Results != nil && len(fd.Type.Results.List) > 0 {
+		if id, ok := fd.Type.Results.List[len(fd.Type.Results.List)-1].Type.(*ast.Ident); ok && id.Name == "error" {
+			returnsError = true
+		}
+	}
 	locals := map[types.Object]*ast.CompositeLit{}
 	report := func() {
 		if !d.empty() {
@@ -452,16 +460,94 @@ func interpretContainerMethod(info *types.Info, fd *ast.FuncDecl, methods map[st
 		}
 	}
 	var run func(stmts []ast.Stmt) bool // returns true if control certainly left the function
+	// local closures `f := func(..) {..}` whose body touches the list: what a call of f may leave
+	// dirty is added (never what it cleans) wherever a statement calls f; inside a loop a closure
+	// that appends makes every position suspect
+	closures := map[types.Object]*ast.FuncLit{}
+	closureCallsIn := func(n ast.Node) []*ast.FuncLit {
+		var out []*ast.FuncLit
+		ast.Inspect(n, func(m ast.Node) bool {
+			if _, isLit := m.(*ast.FuncLit); isLit {
+				return false
+			}
+			if c, ok := m.(*ast.CallExpr); ok {
+				if id, ok := c.Fun.(*ast.Ident); ok {
+					if lit := closures[info.ObjectOf(id)]; lit != nil {
+						out = append(out, lit)
+					}
+				}
+			}
+			return true
+		})
+		return out
+	}
+	applyClosure := func(lit *ast.FuncLit, inLoop bool) {
+		save := copyDirty(d)
+		depth++
+		run(lit.Body.List)
+		depth--
+		after := copyDirty(d)
+		*d = *save
+		mergeDirty(d, after)
+		if inLoop {
+			ast.Inspect(lit.Body, func(n ast.Node) bool {
+				if as, ok := n.(*ast.AssignStmt); ok && len(as.Lhs) == 1 && isProps(info, as.Lhs[0]) {
+					d.all = true
+				}
+				return true
+			})
+		}
+	}
 	run = func(stmts []ast.Stmt) bool {
 		for _, st := range stmts {
+			if len(closures) > 0 {
+				switch s := st.(type) {
+				case *ast.ForStmt, *ast.RangeStmt:
+					for _, lit := range closureCallsIn(s) {
+						applyClosure(lit, true)
+					}
+				case *ast.IfStmt:
+					// the init and condition of this if; its branches are interpreted below
+					if s.Init != nil {
+						for _, lit := range closureCallsIn(s.Init) {
+							applyClosure(lit, false)
+						}
+					}
+					for _, lit := range closureCallsIn(s.Cond) {
+						applyClosure(lit, false)
+					}
+				case *ast.BlockStmt:
+				default:
+					for _, lit := range closureCallsIn(st) {
+						applyClosure(lit, false)
+					}
+				}
+			}
 			switch s := st.(type) {
 			case *ast.ReturnStmt:
 				if depth > 0 {
 					return true // end of the helper being interpreted in place
 				}
+				// a decoder that fails hands its caller an error; the half-built container that
+				// may accompany it is not a container anybody iterates (every generated caller
+				// returns nil, err): the invariant is owed at the exits that report success
+				if returnsError && len(s.Results) > 0 && !isIdentNamed(s.Results[len(s.Results)-1], "nil") {
+					return true
+				}
 				report()
 				return true
 			case *ast.AssignStmt:
+				// f := func(..) {..}
+				if s.Tok == token.DEFINE && len(s.Lhs) == 1 && len(s.Rhs) == 1 {
+					if lit, ok := s.Rhs[0].(*ast.FuncLit); ok {
+						if id, ok := s.Lhs[0].(*ast.Ident); ok {
+							if mentionsInvariantState(info, lit.Body) {
+								closures[info.ObjectOf(id)] = lit
+							}
+							continue
+						}
+					}
+				}
 				// n := &Iter{…}
 				if s.Tok == token.DEFINE && len(s.Lhs) == 1 && len(s.Rhs) == 1 {
 					if u, ok := s.Rhs[0].(*ast.UnaryExpr); ok && u.Op == token.AND {
@@ -929,23 +1015,12 @@ func checkC18(res *Result) {
 				res.bad("C18-R3", pm.G.Dir, "-", name+" exists", "missing")
 				return
 			}
-			okAt, okNil := false, false
-			ast.Inspect(fd.Body, func(n ast.Node) bool {
-				switch x := n.(type) {
-				case *ast.CallExpr:
-					if sel, ok := x.Fun.(*ast.SelectorExpr); ok && sel.Sel.Name == "At" && len(x.Args) == 1 {
-						if ps, ok := sel.X.(*ast.SelectorExpr); ok && ps.Sel.Name == "parent" && isIdentNamed(ps.X, "this") {
-							okAt = isMyIdxPlus(x.Args[0], op)
-						}
-					}
-				case *ast.ReturnStmt:
-					if len(x.Results) == 1 && isIdentNamed(x.Results[0], "nil") {
-						okNil = true
-					}
-				}
-				return true
-			})
-			res.check(okAt && okNil, "C18-R3", pm.G.Dir, S.pos(fd), name+" returns parent.At(myIdx "+op.String()+" 1) or nil at the boundary", fmt.Sprintf("steps to the neighbouring index: %v; has a nil return: %v", okAt, okNil))
+			dir := 1
+			if op == token.SUB {
+				dir = -1
+			}
+			why := checkStep(info, fd, dir)
+			res.check(why == "", "C18-R3", pm.G.Dir, S.pos(fd), name+" returns parent.At(myIdx "+op.String()+" 1), or nil exactly where that index is outside the list", why)
 		}
 		stepArg("Next", token.ADD)
 		stepArg("Prev", token.SUB)
